@@ -34,10 +34,10 @@ def load_contracts():
 
 
 def _work(job):
-    kind, name, timeout_ms, second = job
+    kind, name, timeout_ms, second = job[:4]
     if kind == 'fn':
         from pyvc import driver
-        return driver.verify_and_discharge(name, timeout_ms=timeout_ms, second_opinion=second)
+        return driver.verify_and_discharge(name, variant_index=job[4], timeout_ms=timeout_ms, second_opinion=second)
     from pyvc import ground
     return ground.run(name)
 
@@ -103,7 +103,10 @@ def main(argv=None):
     quals = [q for q, c in reg.contracts.items() if pid in c.serves and not c.external]
     grounds = [g for g in ground.CHECKS if pid in ground.CHECKS[g].serves]
     timeout_ms = 20000 if tier == 'quick' else 60000
-    jobs = [('fn', q, timeout_ms, tier == 'thorough') for q in quals] + [('ground', g, 0, False) for g in grounds]
+    jobs = [('fn', q, timeout_ms, tier == 'thorough', vi) for q in quals for vi in range(len(reg.contracts[q].variants()))]
+    # biggest functions first so that the pool stays busy
+    jobs.sort(key=lambda j: 0 if j[1].endswith('.run') else 1)
+    jobs += [('ground', g, 0, False) for g in grounds]
     if not jobs:
         print('UNDECIDED property=%s no function under contract serves this property' % pid)
         return 2
@@ -111,7 +114,14 @@ def main(argv=None):
         results = pool.map(_work, jobs, chunksize=1)
 
     obligations, faults, undecided, functions, assumed = [], [], [], [], set()
+    merged = {}
     for r in results:
+        m = merged.setdefault(r['qual'], dict(qual=r['qual'], obligations=[], infos=[], error=None, wall_s=0, source=r.get('source'), kind=r.get('kind', 'function')))
+        m['obligations'] += r.get('obligations', [])
+        m['infos'] += r.get('infos', [])
+        m['error'] = m['error'] or r.get('error')
+        m['wall_s'] = max(m['wall_s'], r.get('wall_s', 0))
+    for r in merged.values():
         if r.get('error'):
             faults.append('%s: %s' % (r['qual'], r['error'].splitlines()[0]))
             sys.stderr.write(r['error'] + '\n')
